@@ -532,3 +532,32 @@ func init() {
 		register(v)
 	}
 }
+
+// parse_exh: every string over a delimiter-rich alphabet up to a length bound, through the real parser
+func init() {
+	c := &Component{Name: "parse_exh", Exec: execParse,
+		Rule: "EXHAUSTIVE: every string of length 0..L (L=4 quick, 5 thorough) over the 16-symbol alphabet {a 1 : | # @ , = [ ] c m s h . -} (all delimiters of the line grammar and of the four tag syntaxes, the type letters, a digit, a sign) with all four tag syntaxes enabled, and every string of length 0..3 with all of them disabled. Non-trivial: the parser produced an event or an error counter moved; distinct by op text."}
+	c.Gen = func(r *rand.Rand, tier string, emit Emit) {
+		alpha := []byte("a1:|#@,=[]cmsh.-")
+		L := 4
+		if tier == "thorough" {
+			L = 5
+		}
+		var rec func(prefix []byte, left int, flags string)
+		rec = func(prefix []byte, left int, flags string) {
+			l := string(prefix)
+			op := parseOp(flags, l)
+			emit(op, strings.Contains(l, ":") && strings.Contains(l, "|"), fmt.Sprintf("len%d_%s", len(prefix), flags))
+			if left == 0 {
+				return
+			}
+			for _, b := range alpha {
+				rec(append(prefix, b), left-1, flags)
+			}
+		}
+		rec(nil, L, "1111")
+		rec(nil, 3, "0000")
+		c.Exhaustive = true
+	}
+	register(c)
+}
